@@ -59,6 +59,7 @@ type c19Pair struct {
 	real   bool // produced by the real chatPrompt
 	hyp    bool // user text contained no literal "[img-"
 	strict bool // literal tag typed AND the template prints every content exactly once
+	typed  map[int]int // image numbers the message TEXT makes the prompt mention (nil: unknown)
 	prompt string
 	ids    []int
 }
@@ -108,15 +109,26 @@ func c19RunPair(out *zzverif.Out, p c19Pair) {
 	// L2 on what the real chatPrompt produced: the runner accepts it, every tag N consumes the
 	// image at position N, the text between the tags is the prompt without the tags.
 	if !p.hyp {
-		// Finding F5: some message text spells `[img-`.  The end-to-end clauses are evaluated all the same and
-		// labelled: the runner accepts the prompt; every returned image is embedded exactly once.
+		// Finding F5: some message text contains `[img-`.  The end-to-end clauses are evaluated all the same; a failure
+		// is labelled (for known-finding matching) iff it is EXACTLY what the typed mentions explain: `invalid image
+		// index: N` with N typed and not the id of a returned image; image i embedded 1 + (typed mentions of its id)
+		// times with at least one typed mention.
 		out.Count("l2_literal_tag_in_text_evaluated")
 		const label = "literal image tag in message text: "
+		isID := map[int]bool{}
+		for _, id := range p.ids {
+			isID[id] = true
+		}
 		if err != nil {
-			out.L2("runner-rejects-prompt", line, label+"inputs() fails on a pair produced by chatPrompt: "+err.Error())
+			var bad int
+			if _, serr := fmt.Sscanf(err.Error(), "invalid image index: %d", &bad); serr == nil && p.typed != nil && p.typed[bad] > 0 && !isID[bad] {
+				out.L2("runner-rejects-prompt", line, fmt.Sprintf("%sinputs() fails on a pair produced by chatPrompt: %s (image %d is mentioned %d times by message texts, %d images returned)", label, err.Error(), bad, p.typed[bad], len(p.ids)))
+			} else {
+				out.L2("runner-rejects-prompt", line, "inputs() fails on a pair produced by chatPrompt: "+err.Error())
+			}
 			return
 		}
-		if !p.strict {
+		if !p.strict || p.typed == nil {
 			return
 		}
 		out.Count("l2_literal_tag_in_text_each_image_once_evaluated")
@@ -125,8 +137,12 @@ func c19RunPair(out *zzverif.Out, p c19Pair) {
 			used[d]++
 		}
 		for i := range p.ids {
-			if c := used[fmt.Sprintf("D%d", i)]; c != 1 {
-				out.L2("runner-image-consumed-not-once", line, fmt.Sprintf("%sthe image at position %d (id %d) of the list chatPrompt returned is embedded %d times", label, i, p.ids[i], c))
+			c, want := used[fmt.Sprintf("D%d", i)], 1+p.typed[p.ids[i]]
+			switch {
+			case c != want:
+				out.L2("runner-image-consumed-not-once", line, fmt.Sprintf("the image at position %d (id %d) of the list chatPrompt returned is embedded %d times (%d mentions typed in message texts)", i, p.ids[i], c, p.typed[p.ids[i]]))
+			case want != 1:
+				out.L2("runner-image-consumed-not-once", line, fmt.Sprintf("%sthe image at position %d (id %d) of the list chatPrompt returned is embedded %d times (once for chatPrompt's tag, %d for mentions typed in message texts)", label, i, p.ids[i], c, p.typed[p.ids[i]]))
 			}
 		}
 		return
@@ -202,7 +218,18 @@ func TestVerifC19Runner(t *testing.T) {
 			if len(fs) < 3 {
 				continue
 			}
-			pr := c19Pair{real: true, hyp: fs[0] == "H1", strict: fs[0] == "H0S", prompt: string(zzverif.Unhex(fs[1]))}
+			flag, typedS, _ := strings.Cut(fs[0], "/")
+			pr := c19Pair{real: true, hyp: flag == "H1", strict: flag == "H0S", prompt: string(zzverif.Unhex(fs[1]))}
+			if flag != "H1" && typedS != "?" {
+				pr.typed = map[int]int{}
+				if typedS != "-" && typedS != "" {
+					for _, x := range strings.Split(typedS, ".") {
+						if v, err := strconv.Atoi(x); err == nil {
+							pr.typed[v]++
+						}
+					}
+				}
+			}
 			for _, x := range fs[3:] {
 				v, _ := strconv.Atoi(x)
 				pr.ids = append(pr.ids, v)
